@@ -555,6 +555,7 @@ class _Alias:
         self.local_classes = {}
         self._lambdas = {}
         self.recursion_cut = set()       # recursive functions whose third level was not entered
+        self.cut_actuals = {}            # id(function) -> [parameter -> expression handed to the level that was not entered]
         self.closure_parent = {}         # scope of a closure / lambda -> scope it was defined in (captured variables)
         self.shallow_of = {}             # variable bound to a shallow copy -> expression of the original (same parts)
         self.kept_vars = set()           # variables bound to an object an external constructor built from tracked references
@@ -1064,6 +1065,21 @@ class _Alias:
             # ... and cut there: on the caller's objects the third level sees what the second saw (everything reachable from an
             # argument is one region); its result may be any of its arguments
             self.recursion_cut.add(target.name)
+            # what the level that is not entered would be given, in terms of the variables of the level that calls it: the caller
+            # (`inline`) widens that level's parameters with it and runs the body once more - recursion is treated like a loop
+            params = [a.arg for a in target.args.posonlyargs + target.args.args + target.args.kwonlyargs if a.arg not in ('self', 'cls')]
+            binding = {}
+            for pname, a in list(zip(params, call.args)) + [(k.arg, k.value) for k in call.keywords if k.arg in params]:
+                if isinstance(a, ast.Starred):
+                    continue
+                try:
+                    pa, e = self.expr(a)
+                except Unsupported:
+                    continue
+                if not pa and not _is_fresh(e):
+                    binding[pname] = e
+            if binding:
+                self.cut_actuals.setdefault(id(target), []).append(binding)
             return None, None
         elif target is not None and len(self.stack) > INLINE_DEPTH:
             target = None
@@ -1171,6 +1187,18 @@ class _Alias:
         self.ret_var = ret
         try:
             pre += self.block(strip_doc(callee.body))
+            if self.stack.count(id(callee)) == 2 and self.cut_actuals.get(id(callee)):
+                pairs = []
+                for binding in self.cut_actuals.pop(id(callee)):
+                    for pname, e in binding.items():
+                        v = self.vars.get(self.scope + pname)
+                        if v is not None:
+                            pairs.append((v, e))
+                if pairs:
+                    # deeper levels: this level's parameters may also be what it hands down (a fixpoint, see `widen`), body again
+                    pre.append(('widen', pairs))
+                    pre += self.block(strip_doc(callee.body))
+                    self.cut_actuals.pop(id(callee), None)
         finally:
             self.scope, self.ret_var, self.scope_cls = outer_scope, outer_ret, outer_cls
             self.stack.pop()
